@@ -398,6 +398,20 @@ class WithOptions(Evaluatable[B]):
             else mix(self.options, options)  # type: ignore
         )
 
+    def _provided(self, key: str, options: Options) -> bool:
+        """Whether the value under key comes from the wrapper's options alone.
+
+        A section that is only partly provided is merged with the caller's
+        section, so it still depends on the caller's options.
+        """
+        if not dotted_key_exists(key, self.options):
+            return False
+        if not dotted_key_exists(key, options):
+            return True
+        return self.force and not isinstance(
+            get_dotted_key(key, self.options), Mapping
+        )
+
     def evaluate(self, options: Options) -> B:
         """Evaluate the wrapped Evaluatable object with the provided options."""
         return self.evaluatable.evaluate(self._options(options))
@@ -411,10 +425,7 @@ class WithOptions(Evaluatable[B]):
         return {
             key
             for key in self.evaluatable.keys(self._options(options))
-            if not (
-                dotted_key_exists(key, self.options)
-                and (self.force or not dotted_key_exists(key, options))
-            )
+            if not self._provided(key, options)
         }
 
     def explain(self, options: Optional[Options] = None) -> Set[str]:
@@ -423,10 +434,7 @@ class WithOptions(Evaluatable[B]):
         return {
             key
             for key in self.evaluatable.explain(self._options(options))
-            if not (
-                dotted_key_exists(key, self.options)
-                and (self.force or not dotted_key_exists(key, options))
-            )
+            if not self._provided(key, options)
         }
 
     def __repr__(self) -> str:
